@@ -9,7 +9,7 @@ HOOK_COMMITS = ["a1e4d44"]
 NOT_APPLICABLE = {}
 
 # properties whose check has been reviewed and verified on the unchanged tree; only these go into MANIFEST.json
-CLAIMED = ["C01", "C02", "C04", "C06", "C07", "C08", "C11", "C12", "C13", "C14", "C15", "C16", "C18", "C19"]
+CLAIMED = ["C01", "C02", "C03", "C04", "C06", "C07", "C08", "C11", "C12", "C13", "C14", "C15", "C16", "C18", "C19"]
 
 CHECKS = {
     "C13": dict(
@@ -271,7 +271,7 @@ CHECKS = {
                     "Writer, Client.Produce (protocol.NewRecordReader and an own RecordReader whose Bytes deliver short reads) and Conn.WriteMessages/WriteCompressedMessages, produce ceiling v2/v3/v5/v7/v8 x every codec; "
                     "the fake broker decodes every request strictly with the reference codec (lengths, CRC-32/CRC-32C, attributes, counts, no trailing bytes) and the oracle compares record count, offset deltas 0..n-1, lastOffsetDelta, "
                     "relative inner offsets of v1 wrappers, key/value with null vs empty, headers and floor-millisecond timestamps in order. "
-                    "Fetch: logsim layouts (format 0 plain, formats 1/2 x every codec, v1 wrappers with relative offsets, compaction holes, empty and control batches, one batch with a corrupted CRC, values spanning pages, broker down-conversion for fetch < v4) "
+                    "Fetch: logsim layouts (format 0 plain, formats 1/2 x every codec, v1 wrappers with relative offsets incl. wrappers thinned by log compaction, compaction holes, empty and control batches, one batch with a corrupted CRC, values spanning pages, broker down-conversion for fetch < v4) "
                     "are served at fetch v2..v11 with byte limits; every Client.Fetch response is compared with the reference decoding of exactly the bytes the broker sent (whole batches only), Conn.ReadBatch and Reader with the model (nil == empty). "
                     "Pool: 1-4 goroutines decode 2-5 record sets through Client.Fetch and RecordSet.ReadFrom (bufio / bytes.Buffer / plain reader), hold key/value Bytes unread or half read across later decodes and releases, and compare them when released. "
                     "Mutation: bit flips in checksum-covered bytes and in the CRC field, base-offset / leader-epoch rewrites, cuts at a byte limit and short streams; decoded records must equal the intact whole batches (prefix if a batch is damaged). Exploration: all dimensions are sampled."),
@@ -282,14 +282,14 @@ CHECKS = {
               "routes, versions and codecs are drawn uniformly. Non-trivial = at least 2 records and one of {compression, headers, nil/empty mix, value or key spanning pages, sub-ms timestamp, several batches, control or corrupt batch}, "
               "for the pool unit: some Bytes was held across a later decode; for the mutation unit: >= 2 records and a mutation, cut or second batch. Distinct by (options, per-message shape classes, label set) resp. (path, version, start, limit class, layout summary, labels) resp. the full schedule."),
         assumptions=["message times lie between 1 ms after the epoch and year 2200 (0 ms means 'no timestamp' to the library)", "a message larger than Writer.BatchBytes is refused by contract, BatchBytes is raised above the largest message",
-                     "format-0/1 compressed wrappers carry contiguous relative inner offsets (the reference encoder cannot express compacted v1 wrappers)", "control batches and corrupt batches are served on the Client.Fetch path only",
+                     "a compacted format-1 wrapper keeps relative inner offsets = offset - first retained offset and the last absolute offset on the wrapper (what the Kafka log cleaner writes)", "control batches and corrupt batches are served on the Client.Fetch path only",
                      "stored timestamps are >= 1 ms"],
         units=[
-            dict(run="TestProduce", checks_quick=2500, checks_thorough=60000, shards_quick=2, shards_thorough=4, timeout=1500),
-            dict(run="TestFetch", checks_quick=450, checks_thorough=5000, shards_quick=4, shards_thorough=8, timeout=1800),
-            dict(run="TestPool", checks_quick=1500, checks_thorough=40000, shards_thorough=4, timeout=1500),
-            dict(run="TestMutatedSets", checks_quick=5000, checks_thorough=200000, shards_thorough=4, timeout=1500),
-            dict(run="TestPool", build="race", tier="thorough", checks_thorough=2500, timeout=1200),
+            dict(run="TestProduce", checks_quick=4000, checks_thorough=25000, shards_quick=2, shards_thorough=4, timeout=1500),
+            dict(run="TestFetch", checks_quick=700, checks_thorough=5000, shards_quick=4, shards_thorough=8, timeout=1800),
+            dict(run="TestPool", checks_quick=2000, checks_thorough=15000, shards_thorough=4, timeout=1500),
+            dict(run="TestMutatedSets", checks_quick=4000, checks_thorough=40000, shards_quick=2, shards_thorough=4, timeout=1500),
+            dict(run="TestPool", build="race", tier="thorough", checks_thorough=1500, timeout=1200),
             dict(run="FuzzRecordSetReadFrom", fuzz=True, tier="thorough", fuzztime_thorough="120s", timeout=400),
         ],
     ),
@@ -325,13 +325,13 @@ CHECKS = {
         assumptions=["the connection ends (EOF or RST) or goes silent after the k-th byte and never delivers anything afterwards", "one request in flight per connection (C06 covers shared connections)",
                      "fetch at the end of the log is excluded for calls without an explicit MaxWait (the response only comes after the long poll)"],
         units=[
-            dict(run="TestConnOps", checks=None, shards_quick=3, shards_thorough=8, timeout=1500),
-            dict(run="TestConnFetchGenerated", checks_quick=60, checks_thorough=700, shards_thorough=4, timeout=1500),
-            dict(run="TestClientOps", checks=None, shards_quick=6, shards_thorough=12, timeout=1500),
-            dict(run="TestEveryAPI", checks_quick=160, checks_thorough=3200, shards_thorough=6, timeout=1500),
+            dict(run="TestConnOps", checks=None, shards_quick=3, shards_thorough=6, timeout=1500),
+            dict(run="TestConnFetchGenerated", checks_quick=60, checks_thorough=600, shards_thorough=4, timeout=1500),
+            dict(run="TestClientOps", checks=None, shards_quick=6, shards_thorough=8, timeout=1500),
+            dict(run="TestEveryAPI", checks_quick=160, checks_thorough=1000, shards_thorough=6, timeout=1500),
             dict(run="TestSaslRawExchange", checks=None),
-            dict(run="TestReaderScenario", checks_quick=150, checks_thorough=3000, shards_thorough=4, timeout=1500),
-            dict(run="TestWriterScenario", checks_quick=150, checks_thorough=3000, shards_thorough=4, timeout=1500),
+            dict(run="TestReaderScenario", checks_quick=150, checks_thorough=1000, shards_thorough=4, timeout=1500),
+            dict(run="TestWriterScenario", checks_quick=150, checks_thorough=3000, shards_thorough=3, timeout=1500),
         ],
     ),
     "C15": dict(
@@ -347,5 +347,17 @@ CHECKS = {
         assumptions=["'current member id' = the id returned by the last JoinGroup exchange before Close if that exchange succeeded and the coordinator still lists the member",
                      "error codes are injected only into APIs on which Kafka documents them"],
         units=[dict(run="TestGenerations", checks_quick=250, checks_thorough=1500, shards_quick=4, shards_thorough=16, timeout=2400)],
+    ),
+    "C03": dict(
+        pkg="props/c03", level="exploration",
+        technique="model-based property testing (rapid): generated consumer-group histories (members joining, leaving, crashing, evicted; rebalances; coordinator faults) with invariants over the coordinator journal and the application-side log",
+        level_text=("1-4 group Readers run a generated history against the fake coordinator: join, Close, crash (network severed, later evicted), forced rebalance, FetchMessage, CommitMessages of chosen fetched messages (also out of order), "
+                    "ReadMessage, appends, with error codes / dropped connections / lost acknowledgements injected into FindCoordinator, JoinGroup, SyncGroup, Heartbeat, OffsetCommit, OffsetFetch and Fetch; sync and interval commits, single- and multi-topic, range and roundrobin. "
+                    "Invariants over the globally sequenced journal: I1 an acknowledged commit never exceeds 1 + the highest offset the member's application had passed; I2 a synchronous CommitMessages returning nil is backed by an acknowledged commit; "
+                    "I3 every offset below an acknowledged commit had been delivered to some member before; I4 per member and partition deliveries are consecutive runs, each starting where an OffsetFetch answered to that member said; I5 at quiescence everything was delivered (inconclusive if not)."),
+        level_note="heaviest reliance on the fake coordinator's fidelity (Java-broker state machine, no session timers; evictions on harness command); real timers (heartbeat, commit ticker, rebalance timeout) are sampled",
+        rule=("case = (cluster, members with commit mode, history steps, coordinator fault script); non-trivial = at least one rebalance (SyncGroup answered) after the first delivery; distinct by (shape, op multiset, fault count, labels)."),
+        assumptions=["a message returned by ReadMessage together with a commit error counts as delivered and uncommitted", "with StartOffset=LastOffset the start position of an uncommitted partition is not reconstructed (I3/I5 are then not evaluated)"],
+        units=[dict(run="TestGroupHistories", checks_quick=40, checks_thorough=220, shards_quick=6, shards_thorough=16, timeout=3000)],
     ),
 }
